@@ -6,3 +6,23 @@ m = json.load(open('/verif/MANIFEST.json'))
 for c in m['checks']:
     jsonschema.validate(json.load(open(c['evidence_file'])), json.load(open('/root/.vp/EVIDENCE.schema.json')))
 print('schemas ok:', [c['property_id'] for c in m['checks']])
+
+# ---- audit: every contract that is not trusted/inline must be verified by at least one claim (otherwise it would be
+# used as an assumption at call sites without ever being checked)
+import re as _re, glob as _glob
+_keys = {}
+for _f in _glob.glob('/repo/**/contracts_verif.go', recursive=True):
+    _cur = None
+    for _line in open(_f):
+        _m = _re.match(r'//@ func (.+)$', _line.rstrip())
+        if _m:
+            _cur = _m.group(1).strip(); _keys[_cur] = {'t': False, 's': False}
+        elif _cur and _re.match(r'//@\s+(trusted|inline)\b', _line): _keys[_cur]['t'] = True
+        elif _cur and _re.match(r'//@\s+(requires|ensures|modifies|callsite|loop)', _line): _keys[_cur]['s'] = True
+_claimed = set()
+for _f in _glob.glob('/verif/claims/C*.json'):
+    _claimed |= set(json.load(open(_f))['functions'])
+_orphans = [k for k, v in sorted(_keys.items()) if not v['t'] and v['s'] and k not in _claimed and '@' not in k]
+if _orphans:
+    print("contracts verified by no claim:", _orphans); sys.exit(1)
+print("audit ok: every non-trusted contract is verified by some claim")
